@@ -7,7 +7,7 @@
    nodes (it exists iff the graph is acyclic: C12_ranked_no_cycle / C12_acyclic_has_numbering); `fuel` = number of stack frames available.
    The cycle search is proved exact for every graph (C12/DfsProofs.v); `deps d` is the graph check_cyclic_dependencies collects. *)
 From Coq Require Import List Arith Bool PeanoNat.
-From DV Require Import C12.Model C12.Proofs C12.DfsProofs.
+From DV Require Import C12.Model C12.Proofs C12.DfsProofs C12.Relation.
 Import ListNotations.
 
 (* ---- decision tables (C12/Model.v transliterates parse_decision_table and the evaluation closure of builders/decision_table.rs over an abstract
@@ -167,6 +167,25 @@ Theorem C12_nested_cycle_found_upto_6 :
   forallb (fun d => match has_cycle (item_graph [ItemDef 5 None [nested d 5]]) with Cycle => true | _ => false end) (seq 0 7) = true.
 Proof. exact nested_cycle_found_upto_6. Qed.
 
+(* ---- boxed relations (C12/Relation.v): <column> and <row> children in any document order, rows of any width.  Loading never panics, a relation
+   is accepted exactly when every row is as wide as the relation has columns, and where the columns stand among the rows is irrelevant.  The
+   two-site change of the ninth round of seeded changes (rows compared with the columns read so far + elements indexed per column) is kept as a
+   variant: either site alone cannot panic, both together do. *)
+Theorem C12_relation_total : forall doc, load doc = Ok \/ load doc = Err.
+Proof. exact load_total. Qed.
+Theorem C12_relation_ok_iff : forall doc, load doc = Ok <-> (forall w, In w (row_widths doc) -> w = n_cols doc).
+Proof. exact load_ok_iff. Qed.
+Theorem C12_relation_order_irrelevant : forall doc, load (cols_first doc) = load doc.
+Proof. exact load_order_irrelevant. Qed.
+Theorem C12_relation_single_site_safe : forall doc,
+  (load_with parse build_indexed doc = Ok \/ load_with parse build_indexed doc = Err) /\
+  (load_with parse_seq build_get doc = Ok \/ load_with parse_seq build_get doc = Err).
+Proof. intro doc. split; [apply indexed_after_parse_safe | apply get_after_parse_seq_safe]. Qed.
+Theorem C12_relation_two_sites_refuted :
+  load_with parse_seq build_indexed [CCol; CRow 1; CCol] = Panic site_row_element /\ load [CCol; CRow 1; CCol] = Err /\
+  load [CCol; CCol; CRow 2] = Ok /\ load [CRow 2; CCol; CCol] = Ok /\ load [CCol; CRow 2; CCol] = Ok.
+Proof. exact seeded_pair_panics. Qed.
+
 Print Assumptions C12_table_build_total.
 Print Assumptions C12_table_build_ok_iff.
 Print Assumptions C12_table_eval_total.
@@ -200,3 +219,8 @@ Print Assumptions C12_nested_self_reference_cycle.
 Print Assumptions C12_flat_refs_refuted.
 Print Assumptions C12_nested_cycle_found.
 Print Assumptions C12_nested_cycle_found_upto_6.
+Print Assumptions C12_relation_total.
+Print Assumptions C12_relation_ok_iff.
+Print Assumptions C12_relation_order_irrelevant.
+Print Assumptions C12_relation_single_site_safe.
+Print Assumptions C12_relation_two_sites_refuted.
